@@ -98,6 +98,8 @@ def _case(draw, tier):
         "colscan": draw(st.sampled_from([3, 5, 19, 19])),
         "rowscan": rowscan,
         "workers": draw(st.integers(1, 4)),
+        # the file(s) may be handed over as a path, a text, or any iterable of them (list, tuple, one-shot generator / map)
+        "paths_as": draw(st.sampled_from(["list", "list", "tuple", "path", "str", "generator", "map"])),
         "fmt": draw(st.sampled_from(["tsv", "tsv", "parquet"])),
         "negative": draw(st.sampled_from(["none"] * 8 + ["missing", "badlabel"])),
         "neg_pick": draw(st.integers(0, 4)),
@@ -234,8 +236,13 @@ def check(case):
                     raise Violation("ill-formed-wrong-error", f"{neg}: raised {type(e).__name__}: {e}") from None
                 raise Violation("ill-formed-accepted", f"{neg}: a table with a missing required column / out-of-range label was parsed without error")
             kw = {ARGNAME[o]: names[o] for o in OPTIONAL if o in names} if case.get("custom") else {}
-            res = guarded(mokapot.read_pin, [path], max_workers=case["workers"], sig="read_pin", **kw)
-        require(isinstance(res, list) and len(res) == 1, "shape", "read_pin returns one dataset per file")
+            from pathlib import Path as _P
+
+            arg = {"list": [path], "tuple": (path,), "path": _P(path), "str": str(path), "generator": (q for q in [path]),
+                   "map": map(_P, [str(path)])}[case.get("paths_as", "list")]
+            res = guarded(mokapot.read_pin, arg, max_workers=case["workers"], sig="read_pin", **kw)
+        require(isinstance(res, list) and len(res) == 1, "shape",
+                f"read_pin returns one dataset per file; got {type(res).__name__} of {len(res) if hasattr(res, '__len__') else '?'} for one file handed over as {case.get('paths_as', 'list')}")
         p = res[0]
         sd = p.spectra_dataframe
         require(len(sd) == n, "rows-dropped", f"{len(sd)} entries for {n} input rows")
